@@ -108,10 +108,35 @@ fn matrix_dense_model() -> Option<String> {
     None
 }
 
+/// C05: when a terminal event stops the run, every requested time not beyond the event is still reported
+fn teval_terminal() -> Option<String> {
+    struct Ramp;   // y' = 1, terminal event at y = 0.55
+    impl IVP for Ramp {
+        fn ode(&self, _t: f64, _y: &[f64], d: &mut [f64]) { d[0] = 1.0; }
+        fn n_events(&self) -> usize { 1 }
+        fn events(&self, _t: f64, y: &[f64], out: &mut [f64]) { out[0] = y[0] - 0.55; }
+        fn event_config(&self, _i: usize) -> EventConfig { let mut c = EventConfig::new(); c.terminal(); c }
+    }
+    let te: Vec<f64> = (1..=9).map(|i| i as f64 * 0.1).collect();
+    for m in [Method::DOPRI5, Method::RK23, Method::DOP853, Method::RADAU, Method::BDF, Method::RK4] {
+        let s = solve_ivp(&Ramp, 0.0, 1.0, &[0.0], Options::builder().method(m.clone()).t_eval(te.clone()).build()).unwrap();
+        let t_e = s.t_events[0].get(0).copied().unwrap_or(f64::NAN);
+        let want: Vec<f64> = te.iter().copied().filter(|&t| t <= t_e).collect();
+        let got: Vec<f64> = s.t.iter().copied().filter(|&t| t != t_e || want.contains(&t)).collect();
+        let missing: Vec<f64> = want.iter().copied().filter(|t| !s.t.contains(t)).collect();
+        if !missing.is_empty() {
+            return Some(format!("{:?}: t_eval=0.1..0.9, terminal event at t={}: reported t={:?}, requested times {:?} before the event are missing", m, t_e, s.t, missing));
+        }
+        let _ = got;
+    }
+    None
+}
+
 fn main() {
     let which = std::env::args().nth(1).unwrap_or_default();
     let r = match which.as_str() {
         "span_hinit_probe" => span_hinit_probe(),
+        "teval_terminal" => teval_terminal(),
         "default_mass" => default_mass(),
         "matrix_dense_model" => matrix_dense_model(),
         "rk4_overshoot" => rk4_overshoot(),
